@@ -58,6 +58,11 @@ func respellDirective(g *G, d string) string {
 	case isDigits(arg) || (arg != "" && !strings.ContainsAny(arg, " ,\t\"\\")):
 		if g.chance(0.4) {
 			arg = `"` + arg + `"`
+			if g.chance(0.3) {
+				// … with a quoted-pair inside: "6\0" is the quoted-string whose value is 60
+				i := 1 + g.r.Intn(len(arg)-2)
+				arg = arg[:i] + `\` + arg[i:]
+			}
 		}
 	}
 	return name + "=" + arg
